@@ -1,6 +1,7 @@
 """C20: evaluation measures match their definitions (counting-kernel + role + closing-formula rules)."""
 
 from ..core import AnalysisError
+from ..common import inline_same_module_private
 from ..ir import Walker, facts, show
 from ..rules_ift import Rep
 from ..termalg import TermAlgebra
@@ -32,20 +33,28 @@ def is_labels(t, name):
 
 
 def kernel(w, rep, fn, true_name="labels", pred_name="preds"):
-    """(loop, true term, pred term) of the counting loop over zip(labels, preds)."""
+    """(loop, true term, pred term, prefiltered) of the counting loop over zip(labels, preds), or over
+    the list of misclassified pairs [(l, p) for l, p in zip(labels, preds) if l != p]."""
     loops = [li for li in w.loops.values() if li.kind == "for" and not li.loops]
     good = []
     for li in loops:
         d = li.domain
         if d[0] == "call" and d[1] == ("builtin", "zip") and len(d[2]) == 2 \
                 and is_labels(d[2][0], true_name) and is_labels(d[2][1], pred_name):
-            good.append(li)
+            good.append((li, False))
+        elif d[0] == "listcomp" and len(d[2]) == 1:
+            inner, ilid, conds = d[2][0]
+            if inner[0] == "call" and inner[1] == ("builtin", "zip") and len(inner[2]) == 2 \
+                    and is_labels(inner[2][0], true_name) and is_labels(inner[2][1], pred_name):
+                t0, t1 = ("iterproj", inner, ilid, (0,)), ("iterproj", inner, ilid, (1,))
+                if d[1] == ("tuple", (t0, t1)) and conds == (("cmp", "!=", *sorted([t0, t1], key=repr)),):
+                    good.append((li, True))
     rep.fn("KERNEL-zip", fn, "one pass over zip(true labels, predictions)", len(good) == 1,
-           f"loop domains: {[show(l.domain) for l in loops]}")
+           f"loop domains: {[show(l.domain)[:100] for l in loops]}")
     if len(good) != 1:
         return None
-    li = good[0]
-    return li, ("iterproj", li.domain, li.lid, (0,)), ("iterproj", li.domain, li.lid, (1,))
+    li, pre = good[0]
+    return li, ("iterproj", li.domain, li.lid, (0,)), ("iterproj", li.domain, li.lid, (1,)), pre
 
 
 def n_class_ok(t, true_name="labels"):
@@ -68,14 +77,15 @@ def wide_counter(arr) -> bool:
 
 def check_accuracy(rep, repo):
     fi = repo.need_function(GEN, "opf_accuracy")
-    w = Walker(repo, fi, inline=lambda f: False)
+    w = Walker(repo, fi, inline=inline_same_module_private(fi))
     k = kernel(w, rep, fi)
     if not k:
         return
-    li, T, P = k
+    li, T, P, pre = k
     neq = ("cmp", "!=", *sorted([T, P], key=repr))
+    want_guard = () if pre else (neq,)
     inc = [e for e in w.events if e.kind == "store" and li.lid in e.loops]
-    ok_inc = len(inc) == 2 and all(e.aug == "+" and e.value == ("const", 1) and facts(e.guards) == (neq,) for e in inc)
+    ok_inc = len(inc) == 2 and all(e.aug == "+" and e.value == ("const", 1) and facts(e.guards) == want_guard for e in inc)
     rep.fn("ACC-increments", fi, "two +1 increments per misclassified pair, none otherwise", ok_inc,
            f"{len(inc)} store(s) in the counting loop; each must be `+= 1` under true != pred")
     if not ok_inc:
@@ -118,7 +128,7 @@ def check_accuracy(rep, repo):
            f"the predicted-class column is divided by '{show(vP) if vP else 'nothing'}'")
     rep.fn("ACC-divisions", fi, "each column is normalised exactly once", len(divs) == 2 and len(d) == 2,
            f"{len(divs)} in-place division(s) of the error table")
-    rets = [e for e in w.events if e.kind == "return"]
+    rets = [e for e in w.events if e.kind == "return" and e.fn is w.entry]
     okc = False
     if len(rets) == 1:
         alg = TermAlgebra()
@@ -144,14 +154,17 @@ def check_accuracy(rep, repo):
 
 def check_confusion(rep, repo):
     fi = repo.need_function(GEN, "confusion_matrix")
-    w = Walker(repo, fi, inline=lambda f: False)
+    w = Walker(repo, fi, inline=inline_same_module_private(fi))
     k = kernel(w, rep, fi)
     if not k:
         return
-    li, T, P = k
+    li, T, P, pre = k
     inc = [e for e in w.events if e.kind == "store" and li.lid in e.loops]
     ok = False
     arr = None
+    if pre:
+        rep.fn("CM-all-pairs", fi, "the confusion matrix counts every pair, not only the misclassified ones", False,
+               "the counting loop runs over the misclassified pairs only")
     if len(inc) == 1:
         e = inc[0]
         t = e.target
@@ -168,20 +181,21 @@ def check_confusion(rep, repo):
             and len(arr[2][0][1]) == 2 and all(n_class_ok(x) for x in arr[2][0][1]) and wide_counter(arr)
         rep.fn("CM-shape", fi, "K x K zeros with K = max(labels) + 1, counters wide enough for any sample count", shape,
                f"matrix is '{show(arr)}' (a counter type taken from the labels wraps around for narrow integer labels)")
-        rets = [e for e in w.events if e.kind == "return"]
+        rets = [e for e in w.events if e.kind == "return" and e.fn is w.entry]
         rep.fn("CM-return", fi, "the counted matrix is returned", len(rets) == 1 and rets[0].value == arr, "")
 
 
 def check_per_label(rep, repo):
     fi = repo.need_function(GEN, "opf_accuracy_per_label")
-    w = Walker(repo, fi, inline=lambda f: False)
+    w = Walker(repo, fi, inline=inline_same_module_private(fi))
     k = kernel(w, rep, fi)
     if not k:
         return
-    li, T, P = k
+    li, T, P, pre = k
     neq = ("cmp", "!=", *sorted([T, P], key=repr))
     inc = [e for e in w.events if e.kind == "store" and li.lid in e.loops]
-    ok = len(inc) == 1 and inc[0].aug == "+" and inc[0].value == ("const", 1) and facts(inc[0].guards) == (neq,) \
+    ok = len(inc) == 1 and inc[0].aug == "+" and inc[0].value == ("const", 1) \
+        and facts(inc[0].guards) == (() if pre else (neq,)) \
         and inc[0].target[0] == "idx" and inc[0].target[2] == T
     rep.fn("PL-count", fi, "a misclassified sample adds 1 to the errors of its TRUE class", ok,
            f"increment: {[e.text() for e in inc]}")
@@ -198,7 +212,7 @@ def check_per_label(rep, repo):
     okd = len(divs) == 1 and divs[0].target in counts
     rep.fn("PL-denominator", fi, "errors of class c are divided by N_c (count of true labels c)", okd,
            f"division by '{show(divs[0].target) if divs else 'nothing'}'")
-    rets = [e for e in w.events if e.kind == "return"]
+    rets = [e for e in w.events if e.kind == "return" and e.fn is w.entry]
     okr = False
     if len(rets) == 1:
         v = rets[0].value
@@ -210,8 +224,8 @@ def check_per_label(rep, repo):
 
 def check_purity(rep, repo):
     fi = repo.need_function(GEN, "purity")
-    w = Walker(repo, fi, inline=lambda f: False)
-    rets = [e for e in w.events if e.kind == "return"]
+    w = Walker(repo, fi, inline=inline_same_module_private(fi))
+    rets = [e for e in w.events if e.kind == "return" and e.fn is w.entry]
     ok = False
     if len(rets) == 1:
         cm = ("call", ("mod", "opfython.math.general.confusion_matrix"), (("param", "labels"), ("param", "preds")), ())
@@ -228,8 +242,8 @@ def check_purity(rep, repo):
 
 def check_normalize(rep, repo):
     fi = repo.need_function(GEN, "normalize")
-    w = Walker(repo, fi, inline=lambda f: False)
-    rets = [e for e in w.events if e.kind == "return"]
+    w = Walker(repo, fi, inline=inline_same_module_private(fi))
+    rets = [e for e in w.events if e.kind == "return" and e.fn is w.entry]
     a = ("param", fi.params[0])
     ok = False
     if len(rets) == 1:
